@@ -220,7 +220,19 @@ Definition spec_op (x : obs_state) (o : op) : obs_state * bool :=
   | 0 => admission
   | 1 | 5 => if res o =? 0 then nothing else admission
   | 2 => nothing
-  | 6 => if res o =? 0 then (fst nothing, snd nothing && (te o <=? nth 0 (extra o) 0 + prompt)) else admission
+  | 6 =>
+      if res o =? 0 then
+        let tcancel := nth 0 (extra o) 0 in
+        (* prompt: in any case within the generous bound; and when the cancellation came at
+           least 50 ms before the slot it was waiting for, the return is before that instant
+           (it did not wait for the slot) *)
+        let not_sat_out :=
+          match pview x with
+          | v0 :: _ => exempt x || negb (tcancel + 50000000 <=? v0 + p_window x) || (te o <? v0 + p_window x)
+          | [] => true
+          end in
+        (fst nothing, snd nothing && (te o <=? tcancel + prompt) && not_sat_out)
+      else admission
   | 3 =>
       let n := Z.to_nat (arg o) in
       if negb (res o =? 0) then (fst nothing, snd nothing && negb (p_window x =? 0) && (n =? 0)%nat)
